@@ -487,6 +487,22 @@ def _lc(out, cls, prefix):
 UNITS.update({"L_SQL2": _lc("C09_SqL2Loss", "SquaredL2Loss", "ql"), "L_SQL2ABS": _lc("C09_SqL2AbsLoss", "SquaredL2AbsLoss", "qa"),
               "L_SQL2SQABS": _lc("C09_SqL2SqAbsLoss", "SquaredL2SquaredAbsLoss", "qs")})
 
+ECTX = "{K X E : Type} {NK : Num K} {ES : ExtSig K E}"
+
+
+def _fc(out, cls, fields, prefix):
+    """__call__ of the functional-algebra classes of scico/functional/_functional.py over extended values E (C09)"""
+    return dict(out=out, file=FN + "_functional.py", classes=[cls], context=ECTX, prefix=prefix, fields=fields,
+                imports=["From SV Require Import C09.GenSig."],
+                methods={"__call__": dict(params={"x": "X"}, kind="value", coqname="call")})
+
+
+UNITS.update({"F_SCALED": _fc("C09_Scaled", "ScaledFunctional", [("scale", "K"), ("functional", "X -> E")], "sf"),
+              "F_SUM": _fc("C09_FSum", "FunctionalSum", [("functional1", "X -> E"), ("functional2", "X -> E")], "fs"),
+              "F_ZERO": dict(out="C09_Zero", file=FN + "_functional.py", classes=["ZeroFunctional"], context=ECTX,
+                             imports=["From SV Require Import C09.GenSig."],
+                             methods={"__call__": dict(params={"x": "X"}, kind="value", coqname="call")})})
+
 MCTX = "{K C R : Type} {NK : Num K} {MS : MetricSig K C R}"
 _mm = lambda ps, **kw: dict(params={p: ("K" if p == "signal_range" else "C") for p in ps}, kind="value", **kw)
 UNITS["METRIC"] = dict(
